@@ -64,7 +64,46 @@ def plan_jobs(rng, n):
     return out
 
 
-RENDER_DIALECTS = ['mysql', 'postgresql', 'sqlite', 'mssql']
+RENDER_DIALECTS = ['mysql', 'postgresql', 'postgres', 'sqlite', 'mssql', 'oracle', 'Snowflake']
+# names that may or may not need quoting depending on a dialect's reserved-word set (which is shared, class-level state)
+COMMON_NAMES = ['account', 'organization', 'sample', 'issue', 'user', 'role', 'group', 'order', 'key', 'value', 'type', 'name',
+                'date', 'time', 'comment', 'level', 'session', 'view', 'schema', 'database', 'table', 'column', 'index',
+                'limit', 'offset', 'from', 'select', 'status', 'state', 'region', 'share', 'task', 'stage', 'stream',
+                'pipe', 'warehouse', 'connection', 'trigger', 'row', 'rows', 'number', 'text', 'json', 'variant', 'object',
+                'array', 'result', 'system', 'uid', 'size', 'mode', 'file', 'resource', 'access', 'audit', 'cluster',
+                'Account', 'SAMPLE', 'x y', 'a.b', '1a', 'é']
+
+
+def vocab():
+    """reserved words of every SQLAlchemy dialect the renderer can use, as they are NOW (the check compares a fresh
+    process with a used one), plus common column names"""
+    words = set(COMMON_NAMES)
+    try:
+        from sqlalchemy.dialects import mysql, postgresql, sqlite, mssql, oracle
+        for m in (mysql, postgresql, sqlite, mssql, oracle):
+            words |= {str(w) for w in getattr(m.dialect.preparer, 'reserved_words', ())}
+    except Exception:
+        pass
+    try:
+        from mindsdb_sql.parser.dialects.mindsdb.lexer import MindsDBLexer
+        from mindsdb_sql.parser.lexer import SQLLexer
+        words |= {t.lower() for t in (MindsDBLexer.tokens | SQLLexer.tokens) if '_' not in t}
+    except Exception:
+        pass
+    return sorted(words)
+
+
+def render_name_jobs(rng, n):
+    v = vocab()
+    out = []
+    for _ in range(n):
+        a, b, c, t = (rng.choice(v) for _ in range(4))
+        q = lambda w: '`%s`' % w.replace('`', '')
+        sql = 'select %s, t.%s from crm.%s t where %s = 1' % (q(a), q(b), q(t), q(c))
+        out.append(('render', sql, rng.choice(RENDER_DIALECTS)))
+        if rng.random() < 0.3:
+            out.append(('parse', sql, 'mindsdb'))
+    return out
 
 
 def norm_msg(s):
@@ -116,7 +155,7 @@ def jobs_for(rng, n):
             jobs.append(('plan', rng.choice(PLAN_SQL), 'mindsdb'))
         else:
             jobs.append(('render', rng.choice([s for s in PLAN_SQL if 'nosuch' not in s]), rng.choice(RENDER_DIALECTS)))
-    return jobs + plan_jobs(rng, max(40, n // 5))
+    return jobs + plan_jobs(rng, max(40, n // 5)) + render_name_jobs(rng, max(120, n // 4))
 
 
 def class_state_digest():
@@ -137,8 +176,45 @@ def class_state_digest():
         h.update(repr(sorted((k, repr(v)[:200]) for k, v in vars(type(ps)).items()
                              if not k.startswith('__') and not callable(v) and k not in ('_grammar', '_lrtable'))).encode())
     h.update(repr(sorted(ident_mod.get_reserved_words())).encode())
+    h.update(sa_state_digest().encode())
     h.update(repr(sorted((k, repr(v)[:300]) for k, v in vars(sr).items()
                          if isinstance(v, (dict, list, set, tuple, str, int)) and not k.startswith('__'))).encode())
+    return h.hexdigest()
+
+
+def _stable(v, depth=0):
+    if isinstance(v, (set, frozenset)):
+        return 'set' + repr(sorted(_stable(x, depth + 1) for x in v))
+    if isinstance(v, dict):
+        return 'dict' + repr(sorted((_stable(k, depth + 1), _stable(x, depth + 1)) for k, x in v.items())) if depth < 3 else 'dict'
+    if isinstance(v, (list, tuple)):
+        return type(v).__name__ + repr([_stable(x, depth + 1) for x in v]) if depth < 3 else 'seq'
+    if isinstance(v, (str, int, float, bool, type(None))):
+        return repr(v)
+    if isinstance(v, type):
+        return 'class:' + v.__module__ + '.' + v.__qualname__
+    return 'obj:' + type(v).__name__
+
+
+def sa_state_digest():
+    """class-level state of the SQLAlchemy dialect classes the renderer instantiates (dialect, identifier preparer, the
+    three compilers): data attributes only, sets/dicts in canonical order.  A call that edits them in place changes what
+    every later call in the process renders."""
+    h = hashlib.sha256()
+    try:
+        from sqlalchemy.dialects import mysql, postgresql, sqlite, mssql, oracle
+        for m in (mysql, postgresql, sqlite, mssql, oracle):
+            d = m.dialect
+            for cls in (d, d.preparer, d.statement_compiler, d.ddl_compiler, d.type_compiler_cls if hasattr(d, 'type_compiler_cls') else d.type_compiler):
+                for klass in [c for c in getattr(cls, '__mro__', [cls]) if c.__module__.startswith('sqlalchemy')]:
+                    for k, v in sorted(vars(klass).items()):
+                        if k.startswith('__') or callable(v) or isinstance(v, (property, classmethod, staticmethod)):
+                            continue
+                        if type(v).__name__ in ('memoized_property', 'HasMemoized_ro_memoized_attribute', 'hybridproperty', 'getset_descriptor', 'member_descriptor', '_memoized_property', '_non_memoized_property'):
+                            continue
+                        h.update(('%s.%s.%s=%s\n' % (klass.__module__, klass.__qualname__, k, _stable(v))).encode())
+    except Exception as e:
+        h.update(('sa-digest-error:%s' % type(e).__name__).encode())
     return h.hexdigest()
 
 
@@ -149,6 +225,39 @@ from tools.props import c20
 jobs = json.load(sys.stdin)
 print(json.dumps([c20.do_job(tuple(j)) for j in jobs]))
 '''
+
+
+COLD_WORKER = r'''
+import json, sys, threading
+sys.path.insert(0, %r); sys.path.insert(0, %r)
+sys.setswitchinterval(1e-6)
+from tools.props import c20
+jobs = [tuple(j) for j in json.load(sys.stdin)]
+N = 8
+res = [None] * N
+bar = threading.Barrier(N)
+def work(i):
+    rest = jobs[1:]
+    k = i %% max(1, len(rest))
+    mine = rest[k:] + rest[:k]
+    bar.wait()
+    out = [(list(jobs[0]), c20.do_job(jobs[0]))]      # every thread makes the SAME first call at the same moment
+    res[i] = out + [(list(j), c20.do_job(j)) for j in mine]
+ths = [threading.Thread(target=work, args=(i,)) for i in range(N)]
+[t.start() for t in ths]; [t.join() for t in ths]
+print(json.dumps(res))
+'''
+
+
+def run_cold(jobs, hashseed):
+    """a FRESH process in which the very first calls are made by 8 threads released together (lazily initialised
+    globals are filled under contention); returns per thread [(job, result)]"""
+    env = dict(os.environ, PYTHONHASHSEED=str(hashseed))
+    p = subprocess.run([sys.executable, '-c', COLD_WORKER % (common.REPO, common.ROOT)], input=json.dumps(jobs),
+                       capture_output=True, text=True, env=env, timeout=1800)
+    if p.returncode != 0:
+        raise RuntimeError('cold worker failed: ' + p.stderr[-800:])
+    return json.loads(p.stdout.strip().split('\n')[-1])
 
 
 def run_subprocess(jobs, hashseed):
@@ -312,6 +421,26 @@ def run(chk):
                         fail('hashseed', 'result depends on PYTHONHASHSEED', job=list(j), seed_a=seeds[0], seed_b=hs,
                              a=a[:300], b=b[:300])
         chk.oblige('assume:hashseed-subprocesses', 'assumption-check', True)
+        # --- cold start under contention: first calls of a fresh process made by 8 threads at once
+        refmap = dict(zip(uniq, ref))
+        quoting = [j for j in uniq if j[0] in ('parse', 'render') and '`' in j[1]]
+        n_cold = 0
+        kinds = [[j for j in quoting if j[0] == 'parse'], [j for j in quoting if j[0] == 'render'],
+                 [j for j in uniq if j[0] == 'plan'], [j for j in uniq if j[0] == 'parse']]
+        for rep in range(4 if not deep else 16):
+            cj = rng.sample(quoting, min(len(quoting), 6)) + rng.sample(uniq, min(len(uniq), 10))
+            rng.shuffle(cj)
+            first = kinds[rep % len(kinds)] or uniq
+            cj = [rng.choice(first)] + cj        # the first call of the process: one kind of call per repetition
+            for i, lst in enumerate(run_cold([list(j) for j in cj], seeds[0])):
+                for j, r in lst:
+                    j = tuple(j)
+                    n_cold += 1
+                    chk.count(('cold', rep, i, j))
+                    if r != refmap[j]:
+                        fail('cold-start-threads', 'result of one of the first calls of a fresh process differs when 8 threads '
+                             'make their first calls together', job=list(j), sequential=refmap[j][:300], concurrent=r[:300])
+        dist['cold_start_calls'] = n_cold
     except Exception as e:
         chk.oblige('assume:hashseed-subprocesses', 'assumption-check', False, str(e))
     # canonical table export identical across hash seeds (the LR theorems are about every process's tables)
